@@ -86,11 +86,15 @@ def gen_library(rng):
     """library with three scopes: global, namespace ns, class Cls. returns (scopes, yaml dict)"""
     scopes = []
     decls = []
-    for kind in ("global", "namespace", "class"):
+    for kind in ("global", "namespace", "class", "class-template"):
         names = rng.sample(NAMES, rng.randint(2, 5))
         fs = distinct_signatures([gen_fn(rng, names) for _ in range(rng.randint(1, 6))])
-        if kind == "class":
+        if kind in ("class", "class-template"):
             fs = [(f, d) for f, d in fs if not f["tmpl"]]          # member templates are not part of the model
+        if kind == "class-template":
+            if rng.random() < 0.5:
+                continue
+            fs = [(f, d) for f, d in fs if not f["generic"]]
         # explicit suffixes are the user's choice: keep them pairwise distinct within an overload set, and a blank
         # explicit suffix only on a name that is not overloaded
         cnt = collections.Counter(f["name"] for f, _ in fs)
@@ -112,9 +116,16 @@ def gen_library(rng):
         elif kind == "namespace":
             decls.append({"decl": "namespace ns", "declarations": [d for _, d in fs]})
             scopes.append(("/ns", "ns_", "", [f for f, _ in fs]))     # a namespace has its own Fortran module: no F_name_scope
-        else:
+        elif kind == "class":
             decls.append({"decl": "class Cls", "declarations": [d for _, d in fs]})
             scopes.append(("/Cls", "Cls_", "cls_", [f for f, _ in fs]))
+        else:
+            # every instantiation of a class template is a scope of its own with the same members: the names of one
+            # instantiation must not depend on the other having been processed first
+            decls.append({"decl": "template<typename T> class Vec", "cxx_template": [{"instantiation": "<int>"}, {"instantiation": "<double>"}],
+                          "declarations": [d for _, d in fs]})
+            scopes.append(("/Vec_int", "Vec_int_", "vec_int_", [f for f, _ in fs]))
+            scopes.append(("/Vec_double", "Vec_double_", "vec_double_", [f for f, _ in fs]))
     lib = {"library": "nam", "cxx_header": "nam.hpp", "options": {"wrap_python": True, "wrap_lua": True}, "declarations": decls}
     return scopes, lib
 
@@ -272,16 +283,19 @@ def run(ctx):
                 if len(set(want[g])) > 1 and g not in m["generics"]:
                     problems.append(("no generic interface for overloaded name", g))
             # type-bound generics of the class
-            if msc == "":
+            for tname, tb in (m.get("tbgenerics_by_type") or {}).items() if msc == "" else ():
+                csc = {"cls": "/Cls", "vec_int": "/Vec_int", "vec_double": "/Vec_double"}.get(tname)
+                if csc is None:
+                    continue
                 wtb = collections.defaultdict(list)
                 for x in r["nodes"]:
-                    if x["ffunc"] and x["generic"] and x["scope"] == "/Cls":
+                    if x["ffunc"] and x["generic"] and x["scope"] == csc:
                         wtb[x["generic"].lower()].append(x["ffunc"].lower())
-                for g, procs in m["tbgenerics"].items():
+                for g, procs in tb.items():
                     if names_obs.dups(procs):
-                        problems.append(("type-bound generic %s lists a specific twice" % g, names_obs.dups(procs)[0]))
+                        problems.append(("type-bound generic %s of type %s lists a specific twice" % (g, tname), names_obs.dups(procs)[0]))
                     if g in wtb and sorted(set(procs)) != sorted(set(wtb[g])):
-                        problems.append(("type-bound generic %s does not list exactly the specifics of its C++ name" % g,
+                        problems.append(("type-bound generic %s of type %s does not list exactly the specifics of its C++ name" % (g, tname),
                                          "listed=%s expected=%s" % (sorted(set(procs)), sorted(set(wtb[g])))))
         for (f, t, ents) in r["tables"]:
             for d in names_obs.dups(ents):
